@@ -174,6 +174,27 @@ func TestCampaign(t *testing.T) {
 			col.Scope(fmt.Sprintf("all message sequences of total length %d over the %d-symbol alphabet on 2 sessions", n, len(syms)), cnt, true)
 		}
 	})
+	t.Run("many-sessions", func(t *testing.T) {
+		// a server that has already seen K short-lived sessions (K around powers of two): a
+		// generated script must behave on it exactly as on a fresh one
+		ks := []int{15, 16, 17, 63, 64, 65, 127, 128, 129, 255, 256, 257}
+		if ev.Thorough() {
+			ks = append(ks, 511, 512, 513, 1023, 1024, 1025, 4095, 4096, 4097)
+		}
+		rapid.Check(t, func(rt *rapid.T) {
+			if rapid.IntRange(0, 9).Draw(rt, "run?") != 0 {
+				return
+			}
+			sc := drawScript(rt)
+			sc.Prelude = ks[rapid.IntRange(0, len(ks)-1).Draw(rt, "k")]
+			if rapid.Bool().Draw(rt, "bad?") {
+				sc.PreludeBad = rapid.IntRange(1, 7).Draw(rt, "every")
+			}
+			c := Case{Script: sc}
+			v := runCase(c)
+			col.Check(rt, ev.JSON(c), v)
+		})
+	})
 	t.Run("long-streams", func(t *testing.T) {
 		// the K-th message of a long-lived stream: every symbol of the alphabet as message
 		// number K+1 of a session that negotiated and then announced the same election id
@@ -233,27 +254,7 @@ func TestCampaign(t *testing.T) {
 		syms := symbols(true)
 		// bias: most sessions start with valid parameters so that later violations are reached
 		rapid.Check(t, func(rt *rapid.T) {
-			n := rapid.IntRange(2, 14).Draw(rt, "len")
-			var seq [][2]int
-			started := map[int]bool{}
-			nextSess := 3
-			for i := 0; i < n; i++ {
-				s := rapid.IntRange(0, nextSess-1).Draw(rt, "s")
-				var y int
-				if !started[s] && rapid.IntRange(0, 9).Draw(rt, "validstart") < 7 {
-					y = 6 + rapid.IntRange(0, 1).Draw(rt, "ack") // {SP,PRESERVE,RIB|FIB} in the 8-combination table
-				} else if started[s] && rapid.IntRange(0, 9).Draw(rt, "progress") < 5 {
-					// make progress in the protocol: announce a non-zero id or operate with the own id
-					y = []int{9, 10, 11, 12}[rapid.IntRange(0, 3).Draw(rt, "progress-sym")]
-				} else {
-					y = rapid.IntRange(0, len(syms)-1).Draw(rt, "sym")
-				}
-				started[s] = true
-				seq = append(seq, [2]int{s, y})
-				if syms[y].k == "halfclose" && nextSess < 6 {
-					nextSess++
-				}
-			}
+			seq := drawSeq(rt, syms)
 			c := Case{Script: build(seq, syms)}
 			v := runCase(c)
 			col.Check(rt, ev.JSON(c), v)
@@ -262,10 +263,47 @@ func TestCampaign(t *testing.T) {
 	col.MinimizeAll(minimize)
 }
 
+// drawSeq draws a random (session, symbol) sequence biased towards protocol progress.
+func drawSeq(rt *rapid.T, syms []sym) [][2]int {
+	n := rapid.IntRange(2, 14).Draw(rt, "len")
+	var seq [][2]int
+	started := map[int]bool{}
+	nextSess := 3
+	for i := 0; i < n; i++ {
+		s := rapid.IntRange(0, nextSess-1).Draw(rt, "s")
+		var y int
+		if !started[s] && rapid.IntRange(0, 9).Draw(rt, "validstart") < 7 {
+			y = 6 + rapid.IntRange(0, 1).Draw(rt, "ack") // {SP,PRESERVE,RIB|FIB} in the 8-combination table
+		} else if started[s] && rapid.IntRange(0, 9).Draw(rt, "progress") < 5 {
+			// make progress in the protocol: announce a non-zero id or operate with the own id
+			y = []int{9, 10, 11, 12}[rapid.IntRange(0, 3).Draw(rt, "progress-sym")]
+		} else {
+			y = rapid.IntRange(0, len(syms)-1).Draw(rt, "sym")
+		}
+		started[s] = true
+		seq = append(seq, [2]int{s, y})
+		if syms[y].k == "halfclose" && nextSess < 6 {
+			nextSess++
+		}
+	}
+	return seq
+}
+
+func drawScript(rt *rapid.T) sess.Script {
+	syms := symbols(true)
+	return build(drawSeq(rt, syms), syms)
+}
+
 func minimize(sig string, cs []byte) []byte {
 	var c Case
 	if err := json.Unmarshal(cs, &c); err != nil {
 		return nil
 	}
-	return ev.JSON(Case{Script: sess.Minimize(c.Script, ev.Bounded(func(s sess.Script) bool { return runCase(Case{Script: s}).HasSig(sig) }))})
+	pre, bad := c.Script.Prelude, c.Script.PreludeBad
+	ms := sess.Minimize(c.Script, ev.Bounded(func(s sess.Script) bool {
+		s.Prelude, s.PreludeBad = pre, bad
+		return runCase(Case{Script: s}).HasSig(sig)
+	}))
+	ms.Prelude, ms.PreludeBad = pre, bad
+	return ev.JSON(Case{Script: ms})
 }
